@@ -50,7 +50,7 @@ def sym_send(nsubs, cap, lazy):
     re-havocked state with a stale message number."""
     sim = Sim(nsubs, lazy, cap, lmax=(3 if lazy else cap))
     mb = sim.mb
-    pre = sim.havoc(closed=None)
+    pre = sim.havoc(closed=None, sender="sending")
     n0 = pre["n"]
     x = payload(n0)
     blocked = {"n": 0}
@@ -63,7 +63,7 @@ def sym_send(nsubs, cap, lazy):
         same_entries(mb._mailbox, last["st"]["heap"], "send:state changed before blocking")
         blocked["n"] += 1
         # other threads run: readers advance, nobody else sends or closes (single sender)
-        st = sim.havoc(tie_n=n0, closed=False)
+        st = sim.havoc(tie_n=n0, closed=False, sender="sending")
         assume(pred())  # woken with a true predicate (a false one means: keep waiting)
         last["st"] = st
         sim.reset_notes()
@@ -330,11 +330,11 @@ def sym_read(nsubs, j, cap, lazy, drivers, phase):
 def sym_close(nsubs, cap, lazy):
     sim = Sim(nsubs, lazy, cap, lmax=(3 if lazy else cap))
     mb = sim.mb
-    pre = sim.havoc(closed=False)
+    pre = sim.havoc(closed=False, sender="closing")
     last = {"st": pre}
 
     def on_wait(cond, pred):
-        st = sim.havoc(tie_n=pre["n"], closed=False)
+        st = sim.havoc(tie_n=pre["n"], closed=False, sender="closing")
         assume(pred())
         last["st"] = st
         return True
